@@ -237,4 +237,268 @@ theorem sord_reach (v : Variant) (lg : Logger) (n : Nat) (prog : Nat → List (E
     (hr : Reach sstep (sinit v lg n prog) s) : SOrd s :=
   Reach.inv SOrd (sord_init v lg n prog) (fun s t s' ev inv h => sstep_sord s s' t ev inv h) s hr
 
+/-! ### completeness: every accepted call reaches every handler -/
+
+/-- completeness invariant of the concurrent synchronous model -/
+structure SCpl (lg : Logger) (prog0 : Nat → List (Env × Call)) (s : SState) : Prop where
+  rest : ∀ i, (prog0 i).drop (s.cnt i) = s.prog i ∧ s.cnt i ≤ (prog0 i).length
+  cur  : ∀ i, inCall (s.pc i) = true →
+           ∃ e c, (prog0 i)[s.cnt i - 1]? = some (e, c) ∧ 1 ≤ s.cnt i ∧
+             (∀ m j, s.pc i = .disp m j → m = mkMsg lg e c) ∧
+             (∀ m j todo, s.pc i = .locked m j todo → m = mkMsg lg e c)
+  src  : ∀ j, ∀ en ∈ s.hist j, ∃ e c, (prog0 en.tid)[en.seq]? = some (e, c) ∧ en.msg = mkMsg lg e c ∧
+           ∃ h, lg.handlers[j]? = some h ∧ c.level ≥ h.level
+  cpl  : ∀ i k e c j, k < s.cnt i → (prog0 i)[k]? = some (e, c) → ¬ lg.lowest > c.level →
+           recsAt lg j (mkMsg lg e c) ≠ [] → (∀ h, lg.handlers[j]? = some h → c.level ≥ h.level) →
+           (∃ en ∈ s.hist j, en.tid = i ∧ en.seq = k) ∨ (k + 1 = s.cnt i ∧ ¬ past (s.pc i) j)
+
+theorem scpl_init (lg : Logger) (n : Nat) (prog : Nat → List (Env × Call)) :
+    SCpl lg prog (sinit .fixed lg n prog) :=
+  ⟨fun i => by simp [sinit], fun i h => by simp [sinit, inCall] at h, fun j en h => by simp [sinit] at h,
+   fun i k e c j h => by simp [sinit] at h⟩
+
+theorem sstep_scpl (lg : Logger) (outs0 : Nat → List Rec) (prog0 : Nat → List (Env × Call))
+    (s s' : SState) (t : Tok) (ev : List String) (sinv : SInv lg outs0 s) (inv : SCpl lg prog0 s)
+    (h : sstep s t = some (s', ev)) : SCpl lg prog0 s' := by
+  obtain ⟨rest, cur, src, cpl⟩ := inv
+  have fixed := sinv.fixed
+  have cfg := sinv.cfg
+  unfold sstep at h
+  simp only at h
+  split at h
+  · simp at h
+  · split at h
+    · -- idle: the next call starts
+      rename_i hpc
+      split at h
+      · simp at h
+      · rename_i e c tl hprog
+        have hr := rest t.tid
+        rw [hprog] at hr
+        obtain ⟨hget, hdrop, hlt⟩ := drop_cons_facts _ _ _ _ hr.1
+        split at h <;> (injection h with h; injection h with h _; subst h)
+        · rename_i hlow _
+          rw [cfg] at hlow
+          refine ⟨?_, ?_, src, ?_⟩ <;> (simp only [upd]) <;> grind [past, inCall]
+        · rename_i hlow _
+          rw [cfg] at hlow
+          refine ⟨?_, ?_, src, ?_⟩
+          · simp only [upd]; grind
+          · intro i hi
+            simp only [upd] at hi ⊢
+            by_cases hti : i = t.tid
+            · subst hti
+              simp only [if_true]
+              refine ⟨e, c, by simpa using hget, by omega, ?_, ?_⟩
+              · intro m j hm; injection hm with h1 _; rw [← h1, cfg]
+              · intro m j todo hm; cases hm
+            · simp only [hti, if_false] at hi ⊢; exact cur i hi
+          · intro i k e1 c1 j hk hg hl hne hlev
+            simp only [upd] at hk ⊢
+            by_cases hti : i = t.tid
+            · subst hti
+              simp only [if_true] at hk ⊢
+              by_cases hkc : k < s.cnt t.tid
+              · rcases cpl t.tid k e1 c1 j hkc hg hl hne hlev with h | ⟨h1, h2⟩
+                · left; exact h
+                · rw [hpc] at h2; simp [past] at h2
+              · right; exact ⟨by omega, by simp [past]⟩
+            · simp only [hti, if_false] at hk ⊢; exact cpl i k e1 c1 j hk hg hl hne hlev
+    · -- disp m j
+      rename_i m j hpc
+      obtain ⟨e, c, hget, hc1, hm, _⟩ := cur t.tid (by rw [hpc]; rfl)
+      have hme : m = mkMsg lg e c := hm m j hpc
+      -- generic step: the thread moves on to `pc'` (still in the same call or idle), `hist` unchanged
+      have moveOn : ∀ pc' : SPc,
+          (inCall pc' = true → (∀ m' j', pc' = .disp m' j' → m' = m) ∧ (∀ m' j' td, pc' = .locked m' j' td → m' = m)) →
+          (∀ j'' e1 c1, (prog0 t.tid)[s.cnt t.tid - 1]? = some (e1, c1) → ¬ lg.lowest > c1.level →
+              recsAt lg j'' (mkMsg lg e1 c1) ≠ [] → (∀ h, lg.handlers[j'']? = some h → c1.level ≥ h.level) →
+              ¬ past (.disp m j) j'' → ¬ past pc' j'') →
+          SCpl lg prog0 { s with pc := upd s.pc t.tid pc' } := by
+        intro pc' hcur hpast
+        refine ⟨rest, ?_, src, ?_⟩
+        · intro i hi
+          simp only [upd] at hi ⊢
+          by_cases hti : i = t.tid
+          · subst hti
+            simp only [if_true] at hi ⊢
+            obtain ⟨h1, h2⟩ := hcur hi
+            refine ⟨e, c, hget, hc1, ?_, ?_⟩
+            · intro m' j' hp'; rw [h1 m' j' hp', hme]
+            · intro m' j' td hp'; rw [h2 m' j' td hp', hme]
+          · simp only [hti, if_false] at hi ⊢; exact cur i hi
+        · intro i k e1 c1 j'' hk hg hl hne hlev
+          simp only [upd]
+          by_cases hti : i = t.tid
+          · subst hti
+            simp only [if_true]
+            rcases cpl t.tid k e1 c1 j'' hk hg hl hne hlev with h | ⟨h1, h2⟩
+            · left; exact h
+            · right
+              rw [hpc] at h2
+              have hk' : k = s.cnt t.tid - 1 := by omega
+              exact ⟨h1, hpast j'' e1 c1 (by rw [← hk']; exact hg) hl hne hlev h2⟩
+          · simp only [hti, if_false]; exact cpl i k e1 c1 j'' hk hg hl hne hlev
+      split at h
+      · -- no handler j: back to idle
+        rename_i hnone
+        injection h with h; injection h with h _; subst h
+        apply moveOn .idle (fun h => by simp [inCall] at h)
+        intro j'' e1 c1 _ _ hne _ hp
+        exfalso
+        simp only [past, Nat.not_lt] at hp
+        have : lg.handlers[j'']? = none := by
+          rw [cfg] at hnone
+          rw [List.getElem?_eq_none_iff] at hnone ⊢; omega
+        exact hne (by simp [recsAt, this])
+      · rename_i hd hj
+        rw [cfg] at hj
+        -- handler j is not written by this call: move to j + 1
+        have skip : (∀ e1 c1, (prog0 t.tid)[s.cnt t.tid - 1]? = some (e1, c1) →
+              recsAt lg j (mkMsg lg e1 c1) ≠ [] → (∀ h, lg.handlers[j]? = some h → c1.level ≥ h.level) → False) →
+            SCpl lg prog0 { s with pc := upd s.pc t.tid (.disp m (j + 1)) } := by
+          intro hno
+          apply moveOn (.disp m (j + 1))
+          · intro _
+            exact ⟨fun m' j' hp => by injection hp with h1 _; exact h1.symm, fun m' j' td hp => by cases hp⟩
+          · intro j'' e1 c1 hg1 _ hne hlev hp
+            simp only [past, Nat.not_lt] at hp ⊢
+            by_cases hjj : j'' = j
+            · subst hjj; exact absurd (hno e1 c1 hg1 hne hlev) id
+            · omega
+        split at h
+        · rename_i hsw
+          injection h with h; injection h with h _; subst h
+          apply skip
+          intro e1 c1 hg1 _ hlev
+          rw [hget] at hg1
+          injection hg1 with hg1; injection hg1 with h1 h2
+          subst h1; subst h2
+          have := hlev hd hj
+          have hlv : m.level = c.level := by rw [hme]; rfl
+          simp [shouldWrite, hlv] at hsw
+          omega
+        · rename_i hsw2
+          have hrec : handlerRecs s.v hd m = .ok (specRecs hd m) := by
+            rw [fixed]; exact handlerRecs_fixed hd m
+          rw [hrec] at h
+          split at h
+          · rename_i hx; cases hx
+          · rename_i hx
+            injection h with h; injection h with h _; subst h
+            apply skip
+            intro e1 c1 hg1 hne _
+            rw [hget] at hg1
+            injection hg1 with hg1; injection hg1 with h1 h2
+            subst h1; subst h2
+            apply hne
+            simp only [recsAt, hj]
+            rw [← hme]
+            injection hx with hx
+          · rename_i r rs hx
+            split at h
+            · simp at h
+            · injection h with h; injection h with h _; subst h
+              refine ⟨rest, ?_, ?_, ?_⟩
+              · intro i hi
+                simp only [upd] at hi ⊢
+                by_cases hti : i = t.tid
+                · subst hti
+                  simp only [if_true]
+                  refine ⟨e, c, hget, hc1, ?_, ?_⟩
+                  · intro m' j' hp'; cases hp'
+                  · intro m' j' td hp'; injection hp' with h1 _; rw [← h1, hme]
+                · simp only [hti, if_false] at hi ⊢; exact cur i hi
+              · intro j' en hen
+                simp only [upd] at hen
+                by_cases hjj : j' = j
+                · subst hjj
+                  simp only [if_true, List.mem_append, List.mem_singleton] at hen
+                  rcases hen with hen | hen
+                  · exact src j' en hen
+                  · subst hen
+                    refine ⟨e, c, hget, hme, hd, hj, ?_⟩
+                    have hlv : m.level = c.level := by rw [hme]; rfl
+                    simp [shouldWrite, hlv] at hsw2
+                    omega
+                · simp only [hjj, if_false] at hen; exact src j' en hen
+              · intro i k e1 c1 j'' hk hg hl hne hlev
+                simp only [upd]
+                have grow : (∃ en ∈ s.hist j'', en.tid = i ∧ en.seq = k) →
+                    ∃ en ∈ (if j'' = j then s.hist j ++ [{ tid := t.tid, seq := s.cnt t.tid - 1, msg := m }] else s.hist j''),
+                      en.tid = i ∧ en.seq = k := by
+                  rintro ⟨en, hen, h1⟩
+                  refine ⟨en, ?_, h1⟩
+                  by_cases hjj : j'' = j
+                  · subst hjj; simp [hen]
+                  · simp [hjj, hen]
+                rcases cpl i k e1 c1 j'' hk hg hl hne hlev with h | ⟨h1, h2⟩
+                · left; exact grow h
+                · by_cases hti : i = t.tid
+                  · subst hti
+                    rw [hpc] at h2
+                    simp only [past, Nat.not_lt] at h2
+                    by_cases hjj : j'' = j
+                    · left
+                      subst hjj
+                      exact ⟨{ tid := t.tid, seq := s.cnt t.tid - 1, msg := m }, by simp, rfl, by simp; omega⟩
+                    · right
+                      simp only [if_true, past]
+                      exact ⟨h1, by omega⟩
+                  · right; simp only [hti, if_false]; exact ⟨h1, h2⟩
+    · -- locked m j (r :: rs): one more fwrite
+      rename_i m j r rs hpc
+      injection h with h; injection h with h _; subst h
+      obtain ⟨e, c, hget, hc1, _, hm⟩ := cur t.tid (by rw [hpc]; rfl)
+      refine ⟨rest, ?_, src, ?_⟩
+      · intro i hi
+        simp only [upd] at hi ⊢
+        by_cases hti : i = t.tid
+        · subst hti
+          simp only [if_true]
+          refine ⟨e, c, hget, hc1, (fun m' j' hp' => by cases hp'), ?_⟩
+          intro m' j' td hp'; injection hp' with h1 _; rw [← h1]; exact hm m j _ hpc
+        · simp only [hti, if_false] at hi ⊢; exact cur i hi
+      · intro i k e1 c1 j'' hk hg hl hne hlev
+        simp only [upd]
+        rcases cpl i k e1 c1 j'' hk hg hl hne hlev with h | ⟨h1, h2⟩
+        · left; exact h
+        · right
+          by_cases hti : i = t.tid
+          · subst hti; rw [hpc] at h2; simp only [if_true]; exact ⟨h1, h2⟩
+          · simp only [hti, if_false]; exact ⟨h1, h2⟩
+    · -- locked m j []: unlock
+      rename_i m j hpc
+      injection h with h; injection h with h _; subst h
+      obtain ⟨e, c, hget, hc1, _, hm⟩ := cur t.tid (by rw [hpc]; rfl)
+      refine ⟨rest, ?_, src, ?_⟩
+      · intro i hi
+        simp only [upd] at hi ⊢
+        by_cases hti : i = t.tid
+        · subst hti
+          simp only [if_true]
+          refine ⟨e, c, hget, hc1, ?_, fun m' j' td hp' => by cases hp'⟩
+          intro m' j' hp'; injection hp' with h1 _; rw [← h1]; exact hm m j _ hpc
+        · simp only [hti, if_false] at hi ⊢; exact cur i hi
+      · intro i k e1 c1 j'' hk hg hl hne hlev
+        simp only [upd]
+        rcases cpl i k e1 c1 j'' hk hg hl hne hlev with h | ⟨h1, h2⟩
+        · left; exact h
+        · right
+          by_cases hti : i = t.tid
+          · subst hti
+            rw [hpc] at h2
+            simp only [if_true, past, Nat.not_le, Nat.not_lt] at h2 ⊢
+            exact ⟨h1, by omega⟩
+          · simp only [hti, if_false]; exact ⟨h1, h2⟩
+
+/-- both invariants together, in every reachable state -/
+theorem sboth_reach (lg : Logger) (n : Nat) (prog : Nat → List (Env × Call)) (s : SState)
+    (hr : Reach sstep (sinit .fixed lg n prog) s) :
+    SInv lg (sinit .fixed lg n prog).outs s ∧ SCpl lg prog s :=
+  Reach.inv (fun s => SInv lg (sinit .fixed lg n prog).outs s ∧ SCpl lg prog s)
+    ⟨sinv_init lg n prog, scpl_init lg n prog⟩
+    (fun s t s' ev inv h => ⟨sstep_preserves lg _ s s' t ev inv.1 h, sstep_scpl lg _ prog s s' t ev inv.1 inv.2 h⟩)
+    s hr
+
 end MgProof.C16
